@@ -5,6 +5,7 @@ package main
 import (
 	"fmt"
 	"math/rand"
+	"reflect"
 	"strconv"
 	"strings"
 )
@@ -30,7 +31,7 @@ func init() {
 		Run: c19Run,
 		Floors: func(m *Merged, tier string) []string {
 			var u []string
-			for _, c := range []string{"version_pairs", "version_pairs_carry", "version_pairs_count_differs", "version_engine_comparisons", "version_rejections", "date_encodings", "date_pairs_close", "date_same_instant_pairs", "date_rejections", "date_leap_days", "date_noncanonical_texts"} {
+			for _, c := range []string{"version_pairs", "version_pairs_carry", "version_pairs_count_differs", "version_engine_comparisons", "version_rejections", "date_encodings", "date_pairs_close", "date_same_instant_pairs", "date_rejections", "date_leap_days", "date_noncanonical_texts", "version_foreign_length_probes"} {
 				if m.C(c) == 0 {
 					u = append(u, c+" = 0")
 				}
@@ -152,6 +153,7 @@ func c19Run(w *W, idx int) {
 		c19Versions(w, r, alias, n)
 		if k == 0 {
 			c19VersionRejections(w, r)
+			c19ForeignLengths(w, r)
 		}
 		return
 	}
@@ -315,6 +317,52 @@ func c19VersionRejections(w *W, r *rand.Rand) {
 				w.Fail("panic/"+normPanic(o.Panic), "%s panicked: %v", src, o.Panic)
 			} else if o.Err == nil {
 				w.Fail("version-accepted-out-of-domain", "%s = %s; must be rejected (valid length outside 1..4, wrong type or count)", src, o)
+			}
+		}
+	}
+}
+
+// c19ForeignLengths: the valid-length argument may reach the operator as a Go integer that is not an int64 (a plain int
+// in ConstantMap, the result of a registered operator): outside 1..4 it is rejected like an int64 would be; inside
+// 1..4 it is either rejected (as a type error) or gives the encoding that int64 length gives.
+func c19ForeignLengths(w *W, r *rand.Rand) {
+	lens := []interface{}{int(0), int(5), int(-1), int(100), int32(7), uint8(0), int(3), int(4), int32(2), uint8(1), int64(5), int64(0)}
+	for _, alias := range []string{"version", "t_version", "to_version"} {
+		for _, l := range lens {
+			for _, v := range []string{"900.0.0.0.0", "1000.0.0.0.0", "1.2.3", "1.2.3.4.5.6"} {
+				cc := buildConfig(CaseCfg{Opts: OptSet(r.Intn(16)), Consts: map[string]interface{}{"PARTS": l}}, nil)
+				src := fmt.Sprintf("(%s \"%s\" PARTS)", alias, v)
+				e, co := compileGuard(cc, src)
+				w.Evals++
+				w.Inc("version_foreign_length_probes")
+				if co.Panic != nil {
+					w.Fail("panic/"+normPanic(co.Panic), "%s panicked at compile time: %v", src, co.Panic)
+					continue
+				}
+				o := co
+				if co.Err == nil {
+					o, _ = callExpr(e, CallEval, &RecFetcher{Vals: map[string]interface{}{}}, nil, false)
+				}
+				n := reflect.ValueOf(l)
+				var lv int64
+				if n.Kind() == reflect.Uint8 {
+					lv = int64(n.Uint())
+				} else {
+					lv = n.Int()
+				}
+				switch {
+				case o.Panic != nil:
+					w.Fail("panic/"+normPanic(o.Panic), "%s with PARTS=%T(%v) panicked: %v", src, l, l, o.Panic)
+				case lv < 1 || lv > 4:
+					if o.Err == nil {
+						w.Fail("version-accepted-out-of-domain", "%s with PARTS=%T(%v) = %s; a valid length outside 1..4 must be rejected whatever integer type carries it", src, l, l, o)
+					}
+				case o.Err == nil:
+					ref := c19EvalSrc(w, fmt.Sprintf("(%s \"%s\" %d)", alias, v, lv), OptNone)
+					if ref.Err != nil || !valEq(ref.V, o.V) {
+						w.Fail("version-encoding-wrong", "%s with PARTS=%T(%v) = %s, but with the literal length %d it gives %s", src, l, l, o, lv, ref)
+					}
+				}
 			}
 		}
 	}
